@@ -33,6 +33,24 @@ def gen_dep(rng, i):
     if rng.random() < 0.25: d["platform"] = rng.choice(["linux", "win32", "darwin"])
     if rng.random() < 0.35:
         d["markers"] = MI.gen_marker(rng, depth=2, leaves=rng.randint(1, 2), focus=["str", "pv", "pfv"])[0]
+    if rng.random() < 0.2:
+        # the `python` key and a python_version clause in `markers` constrain the same variable (the simplifier then merges two
+        # clauses on one variable under a conjunction); kept only when some interpreter satisfies both
+        from poetry.core.constraints.version import parse_constraint, Version
+        py = rng.choice([">=3.6", "<3.10", ">=3.7", "<3.9", ">=3.6,<3.11", "^3.7", ">=3.8", ">=3.10.0", "~=3.10.0", "<3.10.0", ">=3.10,<3.12", ">=3.9.0"])
+        op = rng.choice(["!=", "!=", "not in", "not in", "in", "==", ">=", "<"])
+        vals = ["3.6", "3.7", "3.8", "3.9", "3.10", "3.11"]
+        v = rng.choice([" ", ", "]).join(rng.sample(vals, 2)) if op in ("in", "not in") else rng.choice(vals)
+        # the clause may also be on python_full_version with a three-component bound (>=, < only: there the two variables mean the same)
+        full = op in (">=", "<") and rng.random() < 0.4
+        tup = lambda x: tuple(int(t) for t in x.split("."))
+        def leaf(m):
+            if op == "in": return f"3.{m}" in v.replace(",", " ").split()
+            if op == "not in": return f"3.{m}" not in v.replace(",", " ").split()
+            return {"!=": (3, m) != tup(v), "==": (3, m) == tup(v), ">=": (3, m) >= tup(v), "<": (3, m) < tup(v)}[op]
+        pc = parse_constraint(py)
+        if any(pc.allows(Version.parse(f"3.{m}.1")) and leaf(m) for m in range(5, 13)):
+            d["python"] = py; d["markers"] = f'python_full_version {op} "{v}.0"' if full else f'python_version {op} "{v}"'
     if rng.random() < 0.3: d["optional"] = True
     return d
 
